@@ -634,6 +634,11 @@ fn spawn_async_ao_list_in_task'''),
         ('end-tag-match-attempted-on-an-empty-token-before-the-body', 'brush-parser/src/tokenizer.rs', "                    if (matches!(self.cross_state.here_state, HereState::InHereDocs)\n                        || state.started_token())\n                        && self.remove_here_end_tag(&mut state, &mut result, false)?\n                    {", "                    if self.remove_here_end_tag(&mut state, &mut result, false)? {"),
         ('end-tag-reported-matched-without-delimiting', 'brush-parser/src/tokenizer.rs', "                // Delimit the end of the here-document body.\n                *result = state.delimit_current_token(\n                    TokenEndReason::HereDocumentBodyEnd,\n                    &mut self.cross_state,\n                )?;\n", ""),
     ],
+    'U16d': [
+        ('array-literal-quoted-as-one-word', 'brush-core/src/commands.rs', [("                match &a.value {\n                    ast::AssignmentValue::Scalar(word) => {", "                match &a.value {\n                    ast::AssignmentValue::Array(_) => {\n                        s.push_str(&escape::quote_if_needed(\n                            a.value.to_string().as_str(),\n                            escape::QuoteMode::SingleQuote,\n                        ));\n                    }\n                    ast::AssignmentValue::Scalar(word) => {"), ("                    ast::AssignmentValue::Array(elements) => {\n                        s.push('(');", "                    #[allow(unreachable_patterns)]\n                    ast::AssignmentValue::Array(elements) => {\n                        s.push('(');")]),
+        ('array-keys-not-quoted', 'brush-core/src/commands.rs', "                                s.push_str(&escape::quote_if_needed(\n                                    key.to_string().as_str(),\n                                    escape::QuoteMode::SingleQuote,\n                                ));", "                                s.push_str(key.to_string().as_str());"),
+        ('elements-not-separated', 'brush-core/src/commands.rs', "                            if i > 0 {\n                                s.push(' ');\n                            }", "                            if i > 1 {\n                                s.push(' ');\n                            }"),
+    ],
     'U33': [
         ('plain-key-tried-before-the-quote-aware-key', 'brush-parser/src/word.rs', [('            "[" inner:array_index() "]=" value:$([_]*) {\n                (Some(inner.to_owned()), value.to_owned())\n            } /\n            "[" inner:$((!"]" [_])*) "]=" value:$([_]*) {', '            "[" inner:$((!"]" [_])*) "]=" value:$([_]*) {\n                (Some(inner.to_owned()), value.to_owned())\n            } /\n            "[" inner:array_index() "]=" value:$([_]*) {')]),
         ('quote-aware-alternative-dropped', 'brush-parser/src/word.rs', '            "[" inner:array_index() "]=" value:$([_]*) {\n                (Some(inner.to_owned()), value.to_owned())\n            } /\n', ''),
